@@ -7,6 +7,7 @@ CONSTANTS
   MaxRuns = 1
   Tolerated <- KnownRecoveryAny
   FnOut = TRUE
+  Poller = FALSE
   Gen = "off"
 INVARIANTS NoClauseViolated InvQuiescentAtRelease InvDurLagsMem
 CHECK_DEADLOCK TRUE
